@@ -54,7 +54,7 @@ func runMain(args []string) {
 	fs.BoolVar(&verbose, "v", false, "progress output")
 	fs.Parse(args)
 	hs := strings.Split(harnesses, ",")
-	extra := []string{"-repo", c.Repo, "-harness-dir", c.HarnessDir, "-tags", c.Tags, "-solver", c.Solver,
+	extra := []string{"-tier", c.Tier, "-repo", c.Repo, "-harness-dir", c.HarnessDir, "-tags", c.Tags, "-solver", c.Solver,
 		fmt.Sprint("-timeout-ms=", c.TimeoutMs), fmt.Sprint("-max-steps=", c.MaxSteps), fmt.Sprint("-max-enum=", c.MaxEnum),
 		fmt.Sprint("-unwind=", c.Unwind)}
 	if c.NoMerge {
